@@ -57,6 +57,109 @@ def lastLookup {α} : List (String × α) → String → Option α
     | none => if k' == k then some v else none
 
 
+/-! ## RoCC (`snaxc/accelerators/rocc.py`)
+
+An instruction-configured accelerator: every emitted `.insn` transmits BOTH source registers of one
+instruction.  `create_pairs` builds `field_dict = dict(op.iter_params())` (a field given twice keeps its LAST
+value) and, for a setup, fills the operand the op does not give from `infer_state_of(in_state)`; a setup
+without input state gets the materialised default `0` instead.  That is modelled as a lookup chain
+(`operand`): the op's own last value for the field, else the fallback.  `prev` (the inferred state) is computed
+by the real code and passed in as data: its soundness is the business of the state-inference property (C07)
+and appears as the named hypothesis `PrevSound` of the theorems in `Props/C04.lean`. -/
+
+inductive RVal
+  | var (v : Var)
+  | default0        -- the materialised `arith.constant 0 : i64`
+deriving DecidableEq, Repr
+
+/-- `insn instr funct7 rs1 rs2`: the asm string only carries `funct7`; `instr` is the name of the declared
+instruction it was emitted for (the `.rs1` key it came from), kept for the semantics. -/
+inductive RStmt
+  | const0
+  | insn (instr : String) (func7 : Nat) (rs1 rs2 : RVal)
+deriving DecidableEq, Repr
+
+/-- `name[:-4]` -/
+def instrOf (f : String) : String := String.ofList (f.toList.take (f.length - 4))
+
+/-- `name.endswith(".rs1")` -/
+def isRs1 (f : String) : Bool := ".rs1".toList.isSuffixOf f.toList
+
+/-- lookup in a Python dict given as its item list -/
+def plookup {α} (d : List (String × α)) (k : String) : Option α := (d.find? (fun e => e.1 == k)).map (·.2)
+
+/-- `field_dict[k]` after `create_pairs` filled it: the op's own value, else the fallback -/
+def operand (ps : List (String × Var)) (fb : String → Option RVal) (k : String) : Option RVal :=
+  match lastLookup ps k with
+  | some v => some (.var v)
+  | none => fb k
+
+/-- `instruction in set(name[:-4] for name, _ in op.iter_params())` -/
+def hasInstr (ps : List (String × Var)) (i : String) : Bool := ps.any (fun p => instrOf p.1 == i)
+
+/-- both operands of every instruction the op mentions are available -/
+def complete (ps : List (String × Var)) (fb : String → Option RVal) : Bool :=
+  ps.all (fun p => (operand ps fb (instrOf p.1 ++ ".rs1")).isSome && (operand ps fb (instrOf p.1 ++ ".rs2")).isSome)
+
+/-- `combine_pairs_to_ops(field_items, values)`: one instruction per declared `.rs1` key, in declaration order.
+`restrict = true` (setup): only the instructions the op mentions (`current_fields`); `restrict = false`
+(launch): every declared launch instruction, `values[name]` raising `KeyError` for one the op lacks. -/
+def roccEmit (ps : List (String × Var)) (fb : String → Option RVal) (restrict : Bool) : Dict → Except Err (List RStmt)
+  | [] => .ok []
+  | e :: r =>
+    if isRs1 e.1 then
+      if hasInstr ps (instrOf e.1) then
+        match operand ps fb (instrOf e.1 ++ ".rs1"), operand ps fb (instrOf e.1 ++ ".rs2") with
+        | some a, some b =>
+          match roccEmit ps fb restrict r with
+          | .ok l => .ok (.insn (instrOf e.1) e.2 a b :: l)
+          | .error x => .error x
+        | _, _ => .error .keyError
+      else if restrict then roccEmit ps fb restrict r else .error .keyError
+    else roccEmit ps fb restrict r
+
+def fromState (st : List (String × Var)) : String → Option RVal := fun k => (plookup st k).map RVal.var
+
+/-- `RoCCAccelerator.lower_acc_setup` + `create_pairs`; `prev` = `infer_state_of(in_state)` (`none` = the
+setup has no input state). -/
+def roccSetup (decl : Dict) (ps : List (String × Var)) (prev : Option (List (String × Var))) :
+    Except Err (List RStmt) :=
+  match prev with
+  | none =>
+    -- defaults for the operands the setup does not give ("not set yet"); the constant is only materialised
+    -- when one is needed
+    match roccEmit ps (fun _ => some .default0) true decl with
+    | .error e => .error e
+    | .ok l => .ok ((if complete ps (fun _ => none) then [] else [RStmt.const0]) ++ l)
+  | some st =>
+    -- retrace the partner through the inferred previous state; KeyError if it is not there
+    if complete ps (fromState st) then roccEmit ps (fromState st) true decl else .error .keyError
+
+/-- `RoCCAccelerator.lower_acc_launch`: no retrace, both operands must be present (`assert`) -/
+def roccLaunch (decl : Dict) (ps : List (String × Var)) : Except Err (List RStmt) :=
+  if complete ps (fun _ => none) then roccEmit ps (fun _ => none) false decl else .error .assertLaunch
+
+/-! ### instruction-level and accfg-level register files of a RoCC accelerator -/
+
+abbrev RegsR := String → Int
+
+def upd (r : RegsR) (k : String) (x : Int) : RegsR := fun j => if j = k then x else r j
+
+def rvalOf (val : Var → Int) : RVal → Int
+  | .var v => val v
+  | .default0 => 0
+
+/-- executing emitted instructions: each one writes both source registers of its instruction -/
+def execR (val : Var → Int) : List RStmt → RegsR → RegsR
+  | [], r => r
+  | .const0 :: l, r => execR val l r
+  | .insn i _ a b :: l, r => execR val l (upd (upd r (i ++ ".rs1") (rvalOf val a)) (i ++ ".rs2") (rvalOf val b))
+
+/-- accfg level: a setup writes the fields it names, in order -/
+def applySetup (val : Var → Int) : List (String × Var) → RegsR → RegsR
+  | [], r => r
+  | (k, v) :: ps, r => applySetup val ps (upd r k (val v))
+
 /-- one loop-carried position of an `scf.for` -/
 inductive FSlot
   | state
@@ -84,6 +187,11 @@ inductive Stmt
   quantisation, more output channels than the array width `n` of the registered accelerator) -/
   | launchG (acc : String) (ps : List (String × Var)) (n : Nat) (m : Int) (shifts mults : List Int)
   | await (acc : String)
+  /-- setup / launch / await of an instruction-configured (RoCC) accelerator; `prev` = `infer_state_of(in_state)`
+  of the real code (`none`: no input state), carried as an annotation -/
+  | setupR (acc : String) (ps : List (String × Var)) (prev : Option (List (String × Var)))
+  | launchR (acc : String) (ps : List (String × Var))
+  | awaitR (acc : String)
   | op (tag : Nat) (nState : Nat)
   | ifS (tag : Nat) (slots : List ISlot) (t e : Block)
   | forS (tag : Nat) (slots : List FSlot) (body : Block)
@@ -96,6 +204,7 @@ mutual
 inductive CStmt
   | csrw (addr : Nat) (v : Var) (cast : Bool) (isLaunch : Bool)   -- constraints "I, rK" / "I, K"
   | csrwC (addr : Nat) (c : Int)   -- csrw ("I, rK") of a value the lowering itself computes from constants
+  | rocc (s : RStmt)               -- `.insn r CUSTOM_3, 0x3, funct7, x0, rs1, rs2` / the materialised default 0
   | poll (addr : Nat)          -- scf.while { csrr addr; cmpi ne 0; condition } do { yield }
   | clear                      -- csrw 965 (i12), 0 (i5)
   | nop
@@ -260,6 +369,25 @@ def lowerStmt (ds : List Decl) : Stmt → Except Err (List CStmt)
     match findDecl ds acc with
     | none => .error .noAcc
     | some d => .ok (lowerAwait d)
+  | .setupR acc ps prev =>
+    match findDecl ds acc with
+    | none => .error .noAcc
+    | some d =>
+      match roccSetup d.fields ps prev with
+      | .error e => .error e
+      | .ok l => .ok (l.map CStmt.rocc)
+  | .launchR acc ps =>
+    match findDecl ds acc with
+    | none => .error .noAcc
+    | some d =>
+      match roccLaunch d.launch ps with
+      | .error e => .error e
+      | .ok l => .ok (l.map CStmt.rocc)
+  | .awaitR acc =>
+    -- `RoCCAccelerator.lower_acc_await`: nothing
+    match findDecl ds acc with
+    | none => .error .noAcc
+    | some _ => .ok []
   | .op tag _ => .ok [.op tag 0]
   | .ifS tag slots t e =>
     match lowerBlock ds e with
@@ -377,6 +505,10 @@ def execS {σ : Type} (sem : Sem σ) : Stmt → σ → σ × List Ev
   | .launchG acc ps n m shifts mults, s =>
     (s, launchGEvents acc (fun f => match lastLookup ps f with | some v => sem.val v s | none => 0) n m shifts mults)
   | .await acc, s => (s, [Ev.await acc])
+  -- RoCC statements are transparent for the CSR trace semantics; their meaning is `execRS` below
+  | .setupR _ _ _, s => (s, [])
+  | .launchR _ _, s => (s, [])
+  | .awaitR _, s => (s, [])
   | .op tag _, s => (sem.opSem tag s, [Ev.op tag])
   | .ifS tag sl t e, s =>
     if sem.cond tag s then
@@ -404,6 +536,7 @@ mutual
 def execCS {σ : Type} (sem : Sem σ) : CStmt → σ → σ × List CEv
   | .csrw a v _ _, s => (s, [CEv.w a (sem.val v s)])
   | .csrwC a c, s => (s, [CEv.w a c])
+  | .rocc _, s => (s, [])
   | .poll a, s => (s, [CEv.r a])
   | .clear, s => (s, [CEv.w clearAddr 0])
   | .nop, s => (s, [])
@@ -463,107 +596,54 @@ def replayA : List CEv → RegsA → RegsA
   | .w a v :: t, r => replayA t (fun b => if b = a then v else r b)
   | _ :: t, r => replayA t r
 
-/-! ## RoCC (`snaxc/accelerators/rocc.py`)
+/-! ### RoCC programs: the register file along a whole run
 
-An instruction-configured accelerator: every emitted `.insn` transmits BOTH source registers of one
-instruction.  `create_pairs` builds `field_dict = dict(op.iter_params())` (a field given twice keeps its LAST
-value) and, for a setup, fills the operand the op does not give from `infer_state_of(in_state)`; a setup
-without input state gets the materialised default `0` instead.  That is modelled as a lookup chain
-(`operand`): the op's own last value for the field, else the fallback.  `prev` (the inferred state) is computed
-by the real code and passed in as data: its soundness is the business of the state-inference property (C07)
-and appears as the named hypothesis `PrevSound` of the theorems in `Props/C04.lean`. -/
+`M` = data state, the RoCC register file (one `CUSTOM_3` space), and a log of register snapshots taken at every
+opaque op (so an op placed anywhere — e.g. right after a launch — observes the registers at that point). -/
 
-inductive RVal
-  | var (v : Var)
-  | default0        -- the materialised `arith.constant 0 : i64`
-deriving DecidableEq, Repr
+abbrev M (σ : Type) := σ × RegsR × List RegsR
 
-/-- `insn instr funct7 rs1 rs2`: the asm string only carries `funct7`; `instr` is the name of the declared
-instruction it was emitted for (the `.rs1` key it came from), kept for the semantics. -/
-inductive RStmt
-  | const0
-  | insn (instr : String) (func7 : Nat) (rs1 rs2 : RVal)
-deriving DecidableEq, Repr
+def iterM {σ : Type} (f : Nat → M σ → M σ) : Nat → Nat → M σ → M σ
+  | 0, _, m => m
+  | n + 1, i, m => iterM f n (i + 1) (f i m)
 
-/-- `name[:-4]` -/
-def instrOf (f : String) : String := String.ofList (f.toList.take (f.length - 4))
+def assignM {σ : Type} (sem : Sem σ) (ps : List (Var × Var)) (m : M σ) : M σ := (assign sem ps m.1, m.2)
 
-/-- `name.endswith(".rs1")` -/
-def isRs1 (f : String) : Bool := ".rs1".toList.isSuffixOf f.toList
+mutual
+/-- accfg level: a setup writes the fields it names, a launch its launch operands -/
+def execRS {σ : Type} (sem : Sem σ) : Stmt → M σ → M σ
+  | .setupR _ ps _, m => (m.1, applySetup (fun v => sem.val v m.1) ps m.2.1, m.2.2)
+  | .launchR _ ps, m => (m.1, applySetup (fun v => sem.val v m.1) ps m.2.1, m.2.2)
+  | .op tag _, m => (sem.opSem tag m.1, m.2.1, m.2.2 ++ [m.2.1])
+  | .ifS tag sl t e, m =>
+    if sem.cond tag m.1 then assignM sem ((iData sl).map (fun x => (x.1, x.2.1))) (execRB sem t m)
+    else assignM sem ((iData sl).map (fun x => (x.1, x.2.2))) (execRB sem e m)
+  | .forS tag sl b, m =>
+    assignM sem ((fData sl).map (fun x => (x.1, x.2.1)))
+      (iterM (fun i m' => assignM sem ((fData sl).map (fun x => (x.2.1, x.2.2.2))) (execRB sem b (sem.iter tag i m'.1, m'.2)))
+        (sem.trips tag m.1) 0 (assignM sem ((fData sl).map (fun x => (x.2.1, x.2.2.1))) m))
+  | _, m => m
+def execRB {σ : Type} (sem : Sem σ) : Block → M σ → M σ
+  | .nil, m => m
+  | .cons st r, m => execRB sem r (execRS sem st m)
+end
 
-/-- lookup in a Python dict given as its item list -/
-def plookup {α} (d : List (String × α)) (k : String) : Option α := (d.find? (fun e => e.1 == k)).map (·.2)
-
-/-- `field_dict[k]` after `create_pairs` filled it: the op's own value, else the fallback -/
-def operand (ps : List (String × Var)) (fb : String → Option RVal) (k : String) : Option RVal :=
-  match lastLookup ps k with
-  | some v => some (.var v)
-  | none => fb k
-
-/-- `instruction in set(name[:-4] for name, _ in op.iter_params())` -/
-def hasInstr (ps : List (String × Var)) (i : String) : Bool := ps.any (fun p => instrOf p.1 == i)
-
-/-- both operands of every instruction the op mentions are available -/
-def complete (ps : List (String × Var)) (fb : String → Option RVal) : Bool :=
-  ps.all (fun p => (operand ps fb (instrOf p.1 ++ ".rs1")).isSome && (operand ps fb (instrOf p.1 ++ ".rs2")).isSome)
-
-/-- `combine_pairs_to_ops(field_items, values)`: one instruction per declared `.rs1` key, in declaration order.
-`restrict = true` (setup): only the instructions the op mentions (`current_fields`); `restrict = false`
-(launch): every declared launch instruction, `values[name]` raising `KeyError` for one the op lacks. -/
-def roccEmit (ps : List (String × Var)) (fb : String → Option RVal) (restrict : Bool) : Dict → Except Err (List RStmt)
-  | [] => .ok []
-  | e :: r =>
-    if isRs1 e.1 then
-      if hasInstr ps (instrOf e.1) then
-        match operand ps fb (instrOf e.1 ++ ".rs1"), operand ps fb (instrOf e.1 ++ ".rs2") with
-        | some a, some b =>
-          match roccEmit ps fb restrict r with
-          | .ok l => .ok (.insn (instrOf e.1) e.2 a b :: l)
-          | .error x => .error x
-        | _, _ => .error .keyError
-      else if restrict then roccEmit ps fb restrict r else .error .keyError
-    else roccEmit ps fb restrict r
-
-def fromState (st : List (String × Var)) : String → Option RVal := fun k => (plookup st k).map RVal.var
-
-/-- `RoCCAccelerator.lower_acc_setup` + `create_pairs`; `prev` = `infer_state_of(in_state)` (`none` = the
-setup has no input state). -/
-def roccSetup (decl : Dict) (ps : List (String × Var)) (prev : Option (List (String × Var))) :
-    Except Err (List RStmt) :=
-  match prev with
-  | none =>
-    -- defaults for the operands the setup does not give ("not set yet"); the constant is only materialised
-    -- when one is needed
-    match roccEmit ps (fun _ => some .default0) true decl with
-    | .error e => .error e
-    | .ok l => .ok ((if complete ps (fun _ => none) then [] else [RStmt.const0]) ++ l)
-  | some st =>
-    -- retrace the partner through the inferred previous state; KeyError if it is not there
-    if complete ps (fromState st) then roccEmit ps (fromState st) true decl else .error .keyError
-
-/-- `RoCCAccelerator.lower_acc_launch`: no retrace, both operands must be present (`assert`) -/
-def roccLaunch (decl : Dict) (ps : List (String × Var)) : Except Err (List RStmt) :=
-  if complete ps (fun _ => none) then roccEmit ps (fun _ => none) false decl else .error .assertLaunch
-
-/-! ### instruction-level and accfg-level register files of a RoCC accelerator -/
-
-abbrev RegsR := String → Int
-
-def upd (r : RegsR) (k : String) (x : Int) : RegsR := fun j => if j = k then x else r j
-
-def rvalOf (val : Var → Int) : RVal → Int
-  | .var v => val v
-  | .default0 => 0
-
-/-- executing emitted instructions: each one writes both source registers of its instruction -/
-def execR (val : Var → Int) : List RStmt → RegsR → RegsR
-  | [], r => r
-  | .const0 :: l, r => execR val l r
-  | .insn i _ a b :: l, r => execR val l (upd (upd r (i ++ ".rs1") (rvalOf val a)) (i ++ ".rs2") (rvalOf val b))
-
-/-- accfg level: a setup writes the fields it names, in order -/
-def applySetup (val : Var → Int) : List (String × Var) → RegsR → RegsR
-  | [], r => r
-  | (k, v) :: ps, r => applySetup val ps (upd r k (val v))
+mutual
+/-- instruction level: every emitted instruction writes both source registers of its instruction -/
+def execRCS {σ : Type} (sem : Sem σ) : CStmt → M σ → M σ
+  | .rocc st, m => (m.1, execR (fun v => sem.val v m.1) [st] m.2.1, m.2.2)
+  | .op tag _, m => (sem.opSem tag m.1, m.2.1, m.2.2 ++ [m.2.1])
+  | .ifS tag sl t e, m =>
+    if sem.cond tag m.1 then assignM sem ((iData sl).map (fun x => (x.1, x.2.1))) (execRCB sem t m)
+    else assignM sem ((iData sl).map (fun x => (x.1, x.2.2))) (execRCB sem e m)
+  | .forS tag sl b, m =>
+    assignM sem ((fData sl).map (fun x => (x.1, x.2.1)))
+      (iterM (fun i m' => assignM sem ((fData sl).map (fun x => (x.2.1, x.2.2.2))) (execRCB sem b (sem.iter tag i m'.1, m'.2)))
+        (sem.trips tag m.1) 0 (assignM sem ((fData sl).map (fun x => (x.2.1, x.2.2.1))) m))
+  | _, m => m
+def execRCB {σ : Type} (sem : Sem σ) : CBlock → M σ → M σ
+  | .nil, m => m
+  | .cons st r, m => execRCB sem r (execRCS sem st m)
+end
 
 end SnaxVerif.CsrLower
